@@ -127,6 +127,7 @@ class World:
             idx = len(world.handlers)
             rec = {'idx': idx, 'sock': sock, 'handler': None, 'done': False}
             world.handlers.append(rec)
+            sock.handler_rec = rec
 
             def body():
                 try:
